@@ -47,3 +47,17 @@ Theorem C10_generator_example :
   map (ivalue isg ((0, 3) :: [(0, 1); (1, 2); (3, 1)])) [0; 1; 2; 3; 4] = [3; 2; 2; 1; 1].
 Proof. exact afinal_example. Qed.
 Print Assumptions C10_generator_example.
+
+(* One step of the index-based generator (gstep: nth / upd on the mutated events array, exactly as the code) is
+   simulated by one step of the cached-look-up machine (astep) under the relation R (winner index below the
+   current event, its dump/value cached, events from position ce-1 on unmutated, yielded indices below ce-1 and
+   their (value, dump) pairs equal).  This is the inductive step of the link between `single_event_per_dump` and
+   `afinal`; iterating it over the event list (pure index plumbing) is not done yet. *)
+Theorem C10_generator_simulation_step_partial :
+  forall (isg : Z -> bool) (evt vals : list Z) (ce : nat) (s : gst) (a : ast),
+  R evt vals ce s a -> (ce < length evt)%nat -> (length vals + 1 = length evt)%nat ->
+  apd a <= nth ce evt 0 ->
+  R evt vals (S ce) (gstep (map isg vals) s ce (nth ce evt 0))
+                        (astep isg a (nth ce evt 0) (nth ce vals 0) (ce <? length vals)%nat).
+Proof. exact sim_step. Qed.
+Print Assumptions C10_generator_simulation_step_partial.
